@@ -5,7 +5,8 @@ import FluteModel.Partition
   engine `recv` (the theorems about `Recv` never mention it; they hold for every `ObjIface`).
 
   It follows src/receiver/objectreceiver.rs for the sessions the `recv` engine generates:
-  No-Code FEC (codepoint 0), content encoding null, MD5 check off, a writer builder that always
+  No-Code FEC (codepoint 0), content encoding null, MD5 check off, Content-Length check of e19fa2b
+  (`finish`), a writer builder that always
   answers `StoreObject` and whose `open`/`write` succeed, block-allocation and look-ahead limits
   not reached, payload IDs with SBN < number of blocks.  Outside that scope (other FEC schemes,
   out-of-range SBN - defect D6 -, compression, failing writers) it is NOT claimed faithful; the full
@@ -45,6 +46,11 @@ structure Obj where
   aLarge : Nat := 0
   aSmall : Nat := 0
   nbALarge : Nat := 0
+  /-- `content_length` (from the FDT File entry; stays `None` for TOI 0) -/
+  cl : Option Nat := none
+  /-- transfer length the `BlockWriter` was created with = bytes written when it is completed
+      (content encoding null) -/
+  bwTotal : Nat := 0
   deriving Repr, Inhabited
 
 def new (toi maxCache : Nat) : Obj := { toi, maxCache }
@@ -63,6 +69,11 @@ def error (o : Obj) (interrupted : Bool) : Obj × List WEv :=
     ({ o with wsess := .error }, [if interrupted then .interrupted else .error])
   else (o, [])
 
+/-- the block writer is completed: `check_content_length` (repair e19fa2b) decides between
+    `complete` and `error("Content-Length does not match the number of bytes written")` -/
+def finish (o : Obj) : Obj × List WEv :=
+  if o.cl.isNone ∨ o.cl = some o.bwTotal then complete o else error o false
+
 /-- `init_blocks_partitioning` -/
 def initBlocksPartitioning (o : Obj) : Obj :=
   if nbBlock o > 0 then o else
@@ -79,7 +90,7 @@ def initObjectWriter (o : Obj) : Obj × List WEv :=
   if o.wsess ≠ .none then (o, []) else
   match o.fdtId, o.tlen, o.oti with
   | some _, some l, some _ =>
-    ({ o with wsess := .opened, hasBw := decide (l ≠ 0), bwSbn := 0, bytesLeft := l }, [.new (o.cc.getD .noCache), .opened])
+    ({ o with wsess := .opened, hasBw := decide (l ≠ 0), bwSbn := 0, bytesLeft := l, bwTotal := l }, [.new (o.cc.getD .noCache), .opened])
   | _, _, _ => (o, [])
 
 def setBlk (l : List Blk) (i : Nat) (b : Blk) : List Blk := l.set i b
@@ -107,7 +118,7 @@ def writeBlocks : Nat → Obj → Nat → Obj × List WEv
       if o.bwSbn ≠ sbn then (o, []) else
       let a := wbAdvance o (sbn - o.blocksOffset) b
       if a.1.bytesLeft = 0 then
-        ((complete a.1).1, WEv.write sbn a.2 :: (complete a.1).2)
+        ((finish a.1).1, WEv.write sbn a.2 :: (finish a.1).2)
       else
         ((writeBlocks fuel a.1 (sbn + 1)).1, WEv.write sbn a.2 :: (writeBlocks fuel a.1 (sbn + 1)).2)
 
@@ -218,7 +229,7 @@ def attachFdt (o : Obj) (id : Nat) (fdt : FdtAbs) : Obj × Bool × List WEv :=
                  | none => o)
       | some _ => o
     let o := if o.tlen.isNone then { o with tlen := some file.tlen } else o
-    let o := { o with fdtId := some id, cc := some (file.cacheControl fdt.expirationDate) }
+    let o := { o with fdtId := some id, cc := some (file.cacheControl fdt.expirationDate), cl := file.contentLength }
     let o := initBlocksPartitioning o
     let (o, e1) := initObjectWriter o
     let (o, e2) := pushFromCache o
